@@ -531,7 +531,7 @@ def judge(ctx, case, res, model_val, stats, replay_mode=False):
 def shrink(case):
     """Greedy removal of documents / tokens while the oracle still fails (each round = one child process)."""
     def fails(cs):
-        rr, _ = C.run_impl("c03", cs)
+        rr, _ = C.run_impl("c03", cs, {"NUMBA_DISABLE_JIT": "1"})
         out = []
         for c, r in zip(cs, rr or []):
             tmp = C.Ctx("C03", "quick", 0)
@@ -543,7 +543,7 @@ def shrink(case):
             out.append(bool(tmp.violations))
         return out
     cur = case
-    for _ in range(6):
+    for _ in range(4):
         cands = []
         docs = cur["docs"]
         for i in range(len(docs)):
@@ -674,7 +674,7 @@ def run(ctx, replay=None):
                 small = shrink(c)
                 if small is not c:
                     ctx.violations.pop()
-                    rr, _ = C.run_impl("c03", [small])
+                    rr, _ = C.run_impl("c03", [small], {"NUMBA_DISABLE_JIT": "1"})
                     judge(ctx, small, rr[0], None, {k: 0 for k in STAT_KEYS})
             except Exception:
                 pass
